@@ -1,9 +1,34 @@
 //! C06 — congestion windows stay in range and move in the right direction.
+use crate::common::*;
 use crate::core_ops::*;
+
 pub fn run(seed: u64, tier: &str, out: &std::path::Path, _extra: &[(String, String)]) -> std::io::Result<()> {
     // regression corpus: drive a window to the floor and back through fast recovery
     let mut ops = vec![Op::SetConn(0, true, Some(1_000_000))];
     for k in 0..195 { ops.push(Op::CcNak(0, 1_000_000 + 2000 * k)); }
     for k in 0..400 { ops.push(Op::Recovery(0, 2_000_000 + 301 * k, k % 5 == 0)); }
-    run_profile("C06", "Run_C06", Profile::C06, seed, tier, out, &[(1, ops)])
+    let thorough = tier == "thorough";
+    run_profile_with("C06", "Run_C06", Profile::C06, seed, tier, out, &[(1, ops)], "CCore", |run, rng| {
+        // shell tie: the REAL handle_housekeeping in classic (and, as a control, enhanced) mode on
+        // links in every window / fast-recovery / NAK-age situation
+        let n_hk = if thorough { 600 } else { 60 };
+        for k in 0..n_hk {
+            let n = 1 + rng.below(4) as usize;
+            let mut w = World::new(n);
+            let mut now = 1_000_000 + rng.below(500_000);
+            for i in 0..n {
+                w.apply(&Op::SetConn(i, true, Some(now)));
+                let win = *rng.pick(&[1000i64, 1100, 1500, 2000, 2001, 5000, 11_999, 12_000, 20_000, 59_999, 60_000]);
+                w.apply(&Op::SetWindow(i, win));
+                for _ in 0..rng.below(4) { now += rng.below(300); w.apply(&Op::CcNak(i, now)); }
+            }
+            now += *rng.pick(&[0u64, 301, 501, 1001, 2001, 5001, 7001, 10_001, 30_000]);
+            let classic = k % 4 != 3;
+            let (before, after) = housekeeping_windows(&mut w, classic, now);
+            run.count(if classic { "hk:classic" } else { "hk:enhanced" });
+            if before != after { run.count("hk:windows_changed"); }
+            run.push("housekeeping", true, format!("CHk {} {} {}", boolc(classic), zlist(before), zlist(after)));
+        }
+        srtla_core::utils::verif_clock::set(None);
+    })
 }
